@@ -18,6 +18,7 @@ func init() {
 	vrt.Register("C09_use_in_other_scope", UseInOtherScope)
 	vrt.Register("C09_repeated_use", RepeatedUse)
 	vrt.Register("C09_construct_ended_by_fault", EndedByFault)
+	vrt.Register("C09_data_value_reused", DataValueReused)
 }
 
 func itoa(n int) string { return strconv.Itoa(n) }
@@ -360,4 +361,44 @@ func GeneratedLoopEnteredAgain() {
 	prog = append(prog, gen.Text("<"), outer, gen.Text(">"))
 	prog = append(prog, observers(g)...)
 	gen.Check(prog, gen.NewData(2), "an inner loop entered again")
+}
+
+// ---- the data a partial (a content block) is given lives in a variable and is used
+// for a second call: names the first call bound inside are gone, the variable
+// still holds what it held, an outer variable of the same name is readable again
+func DataValueReused() {
+	A, B := vrt.Int(), vrt.Int()
+	ctx := plush.NewContext()
+	ctx.Set("A", A)
+	ctx.Set("B", B)
+	ctx.Set("gomap", map[string]interface{}{"a": A})
+	body := probeUnset("z") + "<%= a %>;<% let z = 1 %><% let a = B %>"
+	ctx.Set("partialFeeder", func(string) (string, error) { return body, nil })
+	a, b := itoa(A), itoa(B)
+	_ = b
+	var in, want string
+	switch vrt.Choice(5) {
+	case 0:
+		in = "<% let opts = {a: A} %><%= partial(\"p\", opts) %><%= partial(\"p\", opts) %>|<%= opts[\"a\"] %>|" + probeUnset("z")
+		want = "U" + a + ";U" + a + ";|" + a + "|U"
+	case 1:
+		in = "<%= partial(\"p\", gomap) %><%= partial(\"p\", gomap) %>|<%= gomap[\"a\"] %>|" + probeUnset("z")
+		want = "U" + a + ";U" + a + ";|" + a + "|U"
+	case 2:
+		in = "<% let opts = {a: A} %><%= for (i) in [1, 2] { %><%= partial(\"p\", opts) %><% } %>|<%= opts[\"a\"] %>"
+		want = "U" + a + ";U" + a + ";|" + a
+	case 3:
+		in = "<% contentFor(\"c\") { %>" + body + "<% } %><% let opts = {a: A} %><%= contentOf(\"c\", opts) %><%= contentOf(\"c\", opts) %>|<%= opts[\"a\"] %>"
+		want = "U" + a + ";U" + a + ";|" + a
+	default:
+		in = "<% let z = 7 %><% let opts = {a: A} %><%= partial(\"q\", opts) %><%= z %>"
+		ctx.Set("partialFeeder", func(string) (string, error) { return "<% let z = 1 %><%= a %>;", nil })
+		want = a + ";7"
+	}
+	vrt.Note("input", in)
+	got, err := plush.Render(in, ctx)
+	vrt.Note("got", got)
+	vrt.Assert(err == nil, "partials and content blocks given their data through a variable render")
+	vrt.Assert(got == want, "names bound inside end with the call; the data variable and outer variables are what they were")
+	vrt.Cover("done")
 }
